@@ -78,6 +78,8 @@ def label_specs():
         ("get_by_kid", KeySet.get_by_kid,
          [("if kid is None and len(self.keys) == 1:", "gbk.if"), ("return self.keys[0]", "gbk.ret0"), ("for key in self.keys:", "gbk.for"),
           ("if key.kid == kid:", "gbk.ifkid"), ("return key", "gbk.retkey"),
+          ("if kid is not None and not isinstance(kid, str):", "gbk.ifstr"),
+          ("raise InvalidKeyIdError('No key for the given \"kid\": it is not a string')", "gbk.raise"),
           ("raise InvalidKeyIdError(f'No key for kid: \"{kid}\"')", "gbk.raise")], False),
         ("pick_random_key", KeySet.pick_random_key,
          [("key_types = self.algorithm_keys.get(algorithm)", "prk.algkeys"), ("if key_types:", "prk.if"),
@@ -99,6 +101,54 @@ def label_specs():
         # only the first line of get_alg is a step (reads of class tables / the singleton)
         ("get_alg", JWSRegistry.get_alg, [("<first>", "jws.getalg")], True),
     ]
+
+
+# --------------------------------------------------------------------------------------
+# accesses to MUTABLE shared locations, logged in execution order (thread, key index | None = a draw):
+# the `_dict_value` attribute of every key (a data descriptor put on BaseKey by the harness; the value still
+# lives in the instance dict), random.choice, the CEK / IV draws.  The access-level correspondence
+# (C20Cases.c20acc) is keyed to these accesses, not to source lines.
+# --------------------------------------------------------------------------------------
+ACCESS = {"log": None, "keys": {}}
+_TLS = threading.local()
+DRAW_LABELS = ("jwe.cek", "jwe.iv")
+
+
+def log_access(what):
+    log = ACCESS["log"]
+    tid = getattr(_TLS, "tid", None)
+    if log is not None and tid is not None:
+        log.append((tid, what))
+
+
+class DictValueSlot:
+    """data descriptor standing in for the plain instance attribute BaseKey._dict_value"""
+
+    def __get__(self, obj, cls=None):
+        if obj is None:
+            return self
+        k = ACCESS["keys"].get(id(obj))
+        if k is not None:
+            log_access(k)
+        try:
+            return obj.__dict__["_dict_value"]
+        except KeyError:
+            raise AttributeError("_dict_value") from None
+
+    def __set__(self, obj, value):
+        k = ACCESS["keys"].get(id(obj))
+        if k is not None:
+            log_access(k)
+        obj.__dict__["_dict_value"] = value
+
+    def __delete__(self, obj):
+        del obj.__dict__["_dict_value"]
+
+
+def install_access_tracing():
+    from joserfc.rfc7517.models import BaseKey
+    if not isinstance(BaseKey.__dict__.get("_dict_value"), DictValueSlot):
+        BaseKey._dict_value = DictValueSlot()
 
 
 def _unwrap(f):
@@ -180,6 +230,8 @@ class Sched:
                     if lab is not None:
                         pos[i] = lab
                         handoff(i)
+                        if lab in DRAW_LABELS:
+                            log_access(None)
                 return local
 
             def glob(frame, event, arg):
@@ -188,6 +240,7 @@ class Sched:
 
         def worker(i):
             sems[i].acquire()
+            _TLS.tid = i
             sys.settrace(mk_tracer(i))
             try:
                 try:
@@ -508,6 +561,7 @@ class Shim:
         self.real, self.picks, self.forced = real, [], forced
 
     def choice(self, seq):
+        log_access(None)
         x = self.real.choice(seq) if self.forced is None else seq[self.forced % len(seq)]
         self.picks.append([i for i, y in enumerate(seq) if y is x][0])
         return x
@@ -740,6 +794,11 @@ class Runner:
         self.O = mk_ops(self.tokens)
         self.kimms = {}
         self.cases, self.meta = [], []
+        self.acc_cases, self.acc_meta = [], []
+        # does the line-label table still describe the source?  (every line of every modelled function is known)
+        self.table_ok = not self.stops.unknown
+        self.last_accesses = []
+        install_access_tracing()
         self.nsched = 0
         import joserfc._keys as _keys
         self._keys = _keys
@@ -796,10 +855,13 @@ class Runner:
         env = Env(world)
         shim = Shim(self._keys.random if not isinstance(self._keys.random, Shim) else self._keys.random.real)
         self._keys.random = shim
+        ACCESS["keys"] = {id(k): i for i, k in enumerate(env.keys)}
+        ACCESS["log"] = []
         try:
             res, trace = self.sched.run([(lambda op=op: op.fn(env)) for op in ops], policy)
         finally:
             self._keys.random = shim.real
+            self.last_accesses, ACCESS["log"], ACCESS["keys"] = ACCESS["log"], None, {}
         self.nsched += 1
         return env, [norm(r) for r in res], trace, shim.picks
 
@@ -905,6 +967,18 @@ class Runner:
         self.cases.append(term)
         self.meta.append({"world": wname, "ops": [op.name for op in ops], "schedule": [t for t, _ in trace]})
 
+    def emit_acc(self, variant, wname, ops, env, res, trace, picks, accesses):
+        """the access-level case of one executed schedule: which thread accessed which key's slot / drew, in order"""
+        world = self.worlds[wname]
+        wid = self.wid(wname)
+        setup = c_list(["CNewSet %s" % c_list(["%d%%nat" % i for i in m]) for m, lazy in world["sets"] if not lazy])
+        acc = c_list(["(%d%%nat, %s)" % (t, "None" if k is None else "(Some %d%%nat)" % k) for t, k in accesses])
+        self.acc_cases.append("CAcc %s im_%s pre_%s sets_%s regs_std %s %s %s %s %s %s" % (
+            c_bool(variant == "fixed"), wid, wid, wid, c_list(["%d%%nat" % p for p in picks]), setup,
+            c_list([coq_of(op, r) for op, r in zip(ops, res)]), acc, c_list([c_result(r) for r in res]),
+            c_list(["(%s, %s, %s)" % tuple(c_bool(x) for x in key_final(k)) for k in env.keys])))
+        self.acc_meta.append({"world": wname, "ops": [op.name for op in ops], "schedule": [t for t, _ in trace]})
+
     def pair(self, variant, wname, ops, kind, max_pre, all_lines):
         """every schedule of the operations with <= max_pre preemptions (2 threads: 2; 3 threads: sampled)"""
         ctx = self.ctx
@@ -928,7 +1002,10 @@ class Runner:
             interesting = (len(ctx.violations) + len(ctx.known_hits) != nv) or any(r not in i for r, i in zip(res, iso))
             if modelled and (interesting and emitted[1] < 25 or len(seen) % stride == 0):
                 emitted[1] += 1 if interesting else 0
-                self.emit(variant, wname, ops, env, res, trace, picks)
+                if self.table_ok:
+                    self.emit(variant, wname, ops, env, res, trace, picks)
+                if not self.table_ok or interesting or len(seen) % (stride * 3) == 0:
+                    self.emit_acc(variant, wname, ops, env, res, trace, picks, self.last_accesses)
         emitted = [0, 0]
         stride = 6 if ctx.quick else (12 if all_lines else 3)
         go([])
@@ -1860,6 +1937,9 @@ def _run(ctx, ok, log, mat, pristine):
     runner = Runner(ctx, mat)
     variant = os.environ.get("C20_VARIANT") or detect_variant(runner)
     ctx.notes.append("step lists compared with the code: %s variant of rfc7517/models.py" % variant)
+    if not runner.table_ok:
+        ctx.notes.append("the line-label table no longer matches the source of the modelled functions: schedules are compared with the "
+                         "model at the granularity of shared-state accesses (c20acc), not of source lines")
     if runner.stops.unknown:
         ctx.notes.append("lines of modelled functions that the model does not know: %r" % (runner.stops.unknown,))
     O = runner.O
@@ -1871,7 +1951,9 @@ def _run(ctx, ok, log, mat, pristine):
     env, res, trace, picks = runner.run_schedule(wname, ops, refuting_policy())
     ctx.note_case(("refuting-schedule",))
     runner.judge(wname, ops, env, res, trace, iso, "model-refuting-schedule")
-    runner.emit(variant, wname, ops, env, res, trace, picks)
+    if runner.table_ok:
+        runner.emit(variant, wname, ops, env, res, trace, picks)
+    runner.emit_acc(variant, wname, ops, env, res, trace, picks, runner.last_accesses)
     ctx.sample({"schedule": "lost-kid schedule of the model replayed on the code", "results": repr(res), "key_has_kid": env.keys[0].kid is not None})
 
     # (2b) all schedules with <= 2 preemptions of the operation pairs
@@ -1934,6 +2016,35 @@ def _run(ctx, ok, log, mat, pristine):
                       {"case": runner.cases[i][:30000], "no_failing_input_found": direct == 0, "kind": "schedule" if "schedule" in m else "history",
                        "world": m["world"], "ops": m["ops"], "schedule": m.get("schedule"),
                        "broken": "correspondence model/C20Model.v vs rfc7517/models.py, jwk.py, _keys.py"})
+    # access-level correspondence: alarm only when the access pattern corresponds and the outcome differs
+    eva = lib.CoqEval(["From Model Require Import Base PyVal TableTypes C20Model C20Cases."], "c20acc", "c20acc_check", "c20acc_show",
+                      shard=60, max_chars=200000, preamble=runner.preamble())
+    ra = eva.run(runner.acc_cases, jobs=8)
+    evp = lib.CoqEval(["From Model Require Import Base PyVal TableTypes C20Model C20Cases."], "c20acc", "c20acc_pattern", None,
+                      shard=120, max_chars=400000, preamble=runner.preamble())
+    rp = evp.run(runner.acc_cases, jobs=8)
+    ctx.coverage["access_level"] = {"cases": ra["evaluated"], "outcome_disagreements": len(ra["failing"]),
+                                    "access_pattern_not_the_models": len(rp["failing"]), "line_table_matches_source": runner.table_ok}
+    ctx.coverage["traces_validated_against_impl"] += ra["evaluated"]
+    ctx.coverage["disagreements_checked"] += len(ra["failing"])
+    for i in ra["failing"][:10]:
+        m = runner.acc_meta[i]
+        ctx.violation({"kind": "correspondence", "level": "access", "ops": [o.split("(")[0] for o in m["ops"]]},
+                      "step model (%s variant) and implementation make the same shared-state accesses but end differently on %r in world %s, schedule %r" % (
+                          variant, m["ops"], m["world"], m["schedule"]),
+                      {"case": runner.acc_cases[i][:30000], "no_failing_input_found": direct == 0, "kind": "schedule",
+                       "world": m["world"], "ops": m["ops"], "schedule": m["schedule"],
+                       "broken": "correspondence model/C20Cases.v:c20acc vs the shared-state accesses of rfc7517/models.py, jwk.py, _keys.py"})
+    if runner.table_ok and rp["failing"]:
+        m = runner.acc_meta[rp["failing"][0]]
+        ctx.violation({"kind": "correspondence", "level": "access-pattern", "ops": [o.split("(")[0] for o in m["ops"]]},
+                      "the line-label table matches the source but the shared-state accesses of the implementation are not the model's on %r in world %s (%d cases)" % (
+                          m["ops"], m["world"], len(rp["failing"])),
+                      {"case": runner.acc_cases[rp["failing"][0]][:30000], "no_failing_input_found": direct == 0, "kind": "schedule",
+                       "world": m["world"], "ops": m["ops"], "schedule": m["schedule"], "broken": "access-level correspondence"})
+    for si, err in ra["errors"] + rp["errors"]:
+        ctx.violation({"kind": "correspondence-error"}, "coqc failed on a generated case file",
+                      {"output": err, "no_failing_input_found": True, "broken": "case evaluation"})
     for si, err in rs["errors"]:
         ctx.violation({"kind": "correspondence-error"}, "coqc failed on a generated case file",
                       {"output": err, "no_failing_input_found": True, "broken": "case evaluation"})
